@@ -791,6 +791,14 @@ fn do_provide(
         }
         o => {
             let e = o.err_text();
+            if e.contains("slippage_tolerance cannot bigger than 1") && !first {
+                if let Some(t) = slippage {
+                    if dec_atomics(t) <= E18 {
+                        ctx.eval("C15");
+                        ctx.fail("C15", "deposit_rejected_within_tolerance", "valid_tolerance_refused_as_out_of_range", None, format!("deposit with slippage_tolerance {t} (<= 1) was refused as 'cannot bigger than 1'"));
+                    }
+                }
+            }
             if e.contains("Slippage tolerance exceeded") {
                 let slip = match (&s.cfg.ptype, slippage, first) {
                     (PType::Stable { amp }, Some(t), false) => stable2::predicted_mint(*amp, before.reserves, amounts, before.share).map(|m| {
